@@ -92,3 +92,12 @@ Qed.
 Theorem sel_names_spec dets p n :
   In n (sel_names dets p) <-> In n dets /\ (p = w_them \/ Glob p n) /\ (us p = true \/ us n = false).
 Proof. unfold sel_names. rewrite filter_In, selected_spec. reflexivity. Qed.
+
+Theorem selector_spec dets p :
+  resolve dets p = filter (selected p) dets /\
+  forall n, In n (resolve dets p) <->
+            In n dets /\ (p = w_them \/ Glob p n) /\ (us p = true \/ us n = false).
+Proof.
+  split; [exact (resolve_sel_names dets p)|].
+  intros n. rewrite resolve_sel_names. exact (sel_names_spec dets p n).
+Qed.
